@@ -398,6 +398,254 @@ theorem foldl_add_err' (ts : List SF) (a : SF) :
     funext acc t; exact add_comm' t acc
   rw [e]; exact foldl_add_err ts a
 
+/-! ### the grid: half-ulp error, multiples of the ulp, rounding next to a binary32 number -/
+
+/-- **half an ulp**: below `2^(k+1)` (with `k ≥ −126`) the rounding error is at most `2^(k−24)`, half the spacing `2^(k−23)` of
+binary32 numbers in `[2^k, 2^(k+1)]` -/
+theorem rne32_half_ulp (x : ℚ) (k : ℤ) (hk : -126 ≤ k) (hx : |x| ≤ (2:ℚ) ^ (k + 1)) :
+    |rne32 x - x| ≤ (2:ℚ) ^ (k - 24) := by
+  rw [rne32_err_abs]
+  have hp : (0:ℚ) ≤ (2:ℚ) ^ (k - 24) := by positivity
+  rcases eq_or_lt_of_le (abs_nonneg x) with h0 | hpos
+  · rw [← h0, rne32_zero]; simpa using hp
+  · rcases eq_or_lt_of_le hx with heq | hlt
+    · rw [heq, rne32_two_zpow (k + 1) (by omega)]; simpa using hp
+    · rw [rne32_pos _ hpos]
+      have h1 := rnePos_err |x| hpos
+      have hl : lg |x| < k + 1 := (lg_lt_iff _ hpos _).2 hlt
+      have hu : ulpExp |x| ≤ k - 23 := by rw [ulpExp_bexp]; unfold bexp; omega
+      have h2 : (2:ℚ) ^ (ulpExp |x|) ≤ (2:ℚ) ^ (k - 23) := (zpow_le_iff _ _).2 hu
+      have e : (2:ℚ) ^ (k - 23) = 2 * (2:ℚ) ^ (k - 24) := by
+        have := zpow_succ2 (k - 24)
+        have e' : k - 24 + 1 = k - 23 := by ring
+        rwa [e'] at this
+      linarith
+
+/-- **multiples of the ulp**: a binary32 number of magnitude at least `2^k` is an integer multiple of `2^(k−23)` -/
+theorem rep_grid {r : ℚ} (hr : Rep r) (k : ℤ) (h : (2:ℚ) ^ k ≤ |r|) : ∃ j : ℤ, r = j * (2:ℚ) ^ (k - 23) := by
+  obtain ⟨m, e, hm, _, rfl⟩ := (rep_iff r).1 hr
+  by_cases he : k - 23 ≤ e
+  · refine ⟨m * ((2 ^ (e - (k - 23)).toNat : ℕ) : ℤ), ?_⟩
+    rw [zpow_split e (k - 23) he]; push_cast; ring
+  · exfalso
+    have he' : e ≤ k - 24 := by omega
+    have hp : (0:ℚ) < (2:ℚ) ^ e := by positivity
+    rw [abs_mul, abs_of_pos hp] at h
+    have hm' : |(m:ℚ)| < 16777216 := by exact_mod_cast hm
+    have h1 : (2:ℚ) ^ e ≤ (2:ℚ) ^ (k - 24) := (zpow_le_iff _ _).2 he'
+    have h2 : |(m:ℚ)| * (2:ℚ) ^ e < 16777216 * (2:ℚ) ^ (k - 24) := by
+      calc |(m:ℚ)| * (2:ℚ) ^ e < 16777216 * (2:ℚ) ^ e := mul_lt_mul_of_pos_right hm' hp
+        _ ≤ 16777216 * (2:ℚ) ^ (k - 24) := mul_le_mul_of_nonneg_left h1 (by norm_num)
+    have e3 : (16777216:ℚ) * (2:ℚ) ^ (k - 24) = (2:ℚ) ^ k := by
+      have : (2:ℚ) ^ k = 2 ^ (24:ℤ) * 2 ^ (k - 24) := by
+        rw [← zpow_add₀ (by norm_num)]; congr 1; ring
+      rw [this, two_pow_24]
+    linarith
+
+/-- an element of `G·ℤ` of magnitude below `(n+1)·G` has magnitude at most `n·G` -/
+theorem grid_abs_le (G : ℚ) (hG : 0 < G) (j : ℤ) (n : ℕ) (h : |(j:ℚ) * G| < (n + 1) * G) : |(j:ℚ) * G| ≤ n * G := by
+  rw [abs_mul, abs_of_pos hG] at h ⊢
+  have h1 : |(j:ℚ)| < (n:ℚ) + 1 := lt_of_mul_lt_mul_right h hG.le
+  have h2 : |j| < (n:ℤ) + 1 := by exact_mod_cast h1
+  have h3 : |j| ≤ (n:ℤ) := by omega
+  have h4 : |(j:ℚ)| ≤ (n:ℚ) := by exact_mod_cast h3
+  exact mul_le_mul_of_nonneg_right h4 hG.le
+
+/-- `2^(e+n) = 2^n · 2^e` for the shifts used below -/
+theorem zpow_shift (e : ℤ) (n : ℕ) : (2:ℚ) ^ (e + n) = (2:ℚ) ^ n * (2:ℚ) ^ e := by
+  rw [zpow_add₀ (by norm_num), zpow_natCast]; ring
+
+/-- **`1.0 − L` is exact for `L ∈ [0.5, 1]`** (a special case of Sterbenz' lemma) -/
+theorem rep_one_sub {L : ℚ} (hL : Rep L) (h1 : 1 / 2 ≤ L) (h2 : L ≤ 1) : Rep (1 - L) := by
+  have hk : (2:ℚ) ^ (-1:ℤ) ≤ |L| := by
+    rw [abs_of_nonneg (by linarith)]; norm_num; linarith
+  obtain ⟨j, hj⟩ := rep_grid hL (-1) hk
+  have e24 : (2:ℚ) ^ ((-1:ℤ) - 23) = 1 / 16777216 := by norm_num
+  rw [e24] at hj
+  have hj1 : (8388608:ℚ) ≤ j := by rw [hj] at h1; linarith
+  have hj2 : (j:ℚ) ≤ 16777216 := by rw [hj] at h2; linarith
+  have hj1' : (8388608:ℤ) ≤ j := by exact_mod_cast hj1
+  have hj2' : j ≤ (16777216:ℤ) := by exact_mod_cast hj2
+  have : (1:ℚ) - L = ((16777216 - j : ℤ) : ℚ) * (2:ℚ) ^ (-24:ℤ) := by
+    rw [hj]; push_cast; norm_num; ring
+  rw [this]
+  apply rep_of_representable _ _ _ (by norm_num)
+  rw [abs_of_nonneg (by omega)]
+  have : (2:ℤ) ^ 24 = 16777216 := by norm_num
+  omega
+
+/-- rounding a number that lies in the same binade `[2^e, 2^(e+1)]` as a binary32 number `c` and within `3/2` ulp of it
+gives `c` or one of its two neighbours -/
+theorem rne32_near_same (c s : ℚ) (e : ℤ) (he : -126 ≤ e) (hc : Rep c) (hce : (2:ℚ) ^ e ≤ c)
+    (hs1 : (2:ℚ) ^ e ≤ s) (hs2 : s ≤ (2:ℚ) ^ (e + 1)) (hsc : |s - c| < 3 / 2 * (2:ℚ) ^ (e - 23)) :
+    |rne32 s - c| ≤ (2:ℚ) ^ (e - 23) := by
+  set U := (2:ℚ) ^ (e - 23) with hU
+  have hUpos : 0 < U := by positivity
+  have hs0 : (0:ℚ) ≤ s := le_trans (by positivity) hs1
+  have h1 := rne32_half_ulp s e he (by rw [abs_of_nonneg hs0]; exact hs2)
+  have eh : (2:ℚ) ^ (e - 24) = U / 2 := by
+    have := zpow_succ2 (e - 24)
+    have e' : e - 24 + 1 = e - 23 := by ring
+    rw [e'] at this; rw [hU, this]; ring
+  rw [eh] at h1
+  have hr : (2:ℚ) ^ e ≤ rne32 s := by
+    have := rne32_mono _ _ hs1
+    rwa [rne32_two_zpow e (by omega)] at this
+  have hpe : (0:ℚ) < (2:ℚ) ^ e := by positivity
+  obtain ⟨j, hj⟩ := rep_grid (rep_rne32 s) e (by rw [abs_of_nonneg (by linarith)]; exact hr)
+  obtain ⟨m, hm⟩ := rep_grid hc e (by rw [abs_of_nonneg (by linarith)]; exact hce)
+  have hd : rne32 s - c = ((j - m : ℤ) : ℚ) * U := by rw [hj, hm]; push_cast; ring
+  have hlt : |rne32 s - c| < (1 + 1) * U := by
+    have := abs_add_le (rne32 s - s) (s - c)
+    rw [sub_add_sub_cancel] at this
+    linarith
+  rw [hd] at hlt ⊢
+  have := grid_abs_le U hUpos (j - m) 1 (by exact_mod_cast hlt)
+  simpa using this
+
+/-- the same when the number to be rounded has crossed into the next binade -/
+theorem rne32_near_above (c s : ℚ) (e : ℤ) (he : -126 ≤ e) (hc : Rep c) (hce : (2:ℚ) ^ e ≤ c)
+    (hce' : c < (2:ℚ) ^ (e + 1)) (hs : (2:ℚ) ^ (e + 1) < s) (hsc : |s - c| < 3 / 2 * (2:ℚ) ^ (e - 23)) :
+    |rne32 s - c| ≤ (2:ℚ) ^ (e - 23) := by
+  set U := (2:ℚ) ^ (e - 23) with hU
+  have hUpos : 0 < U := by positivity
+  have hpe : (0:ℚ) < (2:ℚ) ^ e := by positivity
+  have hs0 : (0:ℚ) ≤ s := le_trans (by positivity) hs.le
+  obtain ⟨sc1, sc2⟩ := abs_lt.1 hsc
+  -- `2^(e+1) = 2^24·U`, `2^(e+2) = 2^25·U`
+  have e1 : (2:ℚ) ^ (e + 1) = 16777216 * U := by
+    have := zpow_shift (e - 23) 24
+    have e' : e - 23 + ((24:ℕ):ℤ) = e + 1 := by push_cast; ring
+    rw [e'] at this; rw [this, hU]; norm_num
+  have e2 : (2:ℚ) ^ (e + 1 + 1) = 33554432 * U := by
+    rw [zpow_succ2, e1]; ring
+  -- `c ≤ 2^(e+1) − U`
+  obtain ⟨m, hm⟩ := rep_grid hc e (by rw [abs_of_nonneg (by linarith)]; exact hce)
+  rw [← hU] at hm
+  have hm1 : (m:ℚ) < 16777216 := by
+    rw [hm, e1] at hce'; exact lt_of_mul_lt_mul_right hce' hUpos.le
+  have hm2 : m ≤ 16777215 := by
+    have : m < 16777216 := by exact_mod_cast hm1
+    omega
+  have hm3 : (m:ℚ) ≤ 16777215 := by exact_mod_cast hm2
+  have hcU : c ≤ 16777216 * U - U := by rw [hm]; nlinarith
+  -- the rounding
+  have h1 := rne32_half_ulp s (e + 1) (by omega) (by rw [abs_of_nonneg hs0, e2]; linarith)
+  have eh : (2:ℚ) ^ (e + 1 - 24) = U := by rw [hU]; congr 1; ring
+  rw [eh] at h1
+  obtain ⟨r1, r2⟩ := abs_le.1 h1
+  have hr : (2:ℚ) ^ (e + 1) ≤ rne32 s := by
+    have := rne32_mono _ _ hs.le
+    rwa [rne32_two_zpow (e + 1) (by omega)] at this
+  obtain ⟨j, hj⟩ := rep_grid (rep_rne32 s) (e + 1) (by
+    rw [abs_of_nonneg (le_trans (by positivity) hr)]; exact hr)
+  have eg : (2:ℚ) ^ (e + 1 - 23) = 2 * U := by
+    have := zpow_succ2 (e - 23)
+    have e' : e - 23 + 1 = e + 1 - 23 := by ring
+    rw [e'] at this; rw [this]
+  rw [eg] at hj
+  -- `rne32 s = 2^(e+1)`
+  have hjl : (8388608:ℚ) ≤ j := by
+    rw [hj, e1] at hr
+    have : (16777216:ℚ) * U = 8388608 * (2 * U) := by ring
+    rw [this] at hr
+    exact le_of_mul_le_mul_right hr (by positivity)
+  have hju : (j:ℚ) < 8388609 := by
+    have : (j:ℚ) * (2 * U) < 8388609 * (2 * U) := by rw [← hj]; linarith
+    exact lt_of_mul_lt_mul_right this (by positivity)
+  have hj' : j = 8388608 := by
+    have a : (8388608:ℤ) ≤ j := by exact_mod_cast hjl
+    have b : j < (8388609:ℤ) := by exact_mod_cast hju
+    omega
+  have hrv : rne32 s = 16777216 * U := by rw [hj, hj']; push_cast; ring
+  have hd : rne32 s - c = ((16777216 - m : ℤ) : ℚ) * U := by rw [hrv, hm]; push_cast; ring
+  have hlt : |rne32 s - c| < (1 + 1) * U := by
+    rw [abs_lt]; constructor <;> rw [hrv] <;> linarith
+  rw [hd] at hlt ⊢
+  have := grid_abs_le U hUpos (16777216 - m) 1 (by exact_mod_cast hlt)
+  simpa using this
+
+/-- the same when the number to be rounded has dropped into the binade below, where binary32 numbers are twice as dense
+(`e ≥ −125`: the binade below is still normal) — here `5/4` ulp is the most that can be allowed -/
+theorem rne32_near_below (c s : ℚ) (e : ℤ) (he : -125 ≤ e) (hc : Rep c) (hce : (2:ℚ) ^ e ≤ c)
+    (hs : s < (2:ℚ) ^ e) (hsc : |s - c| < 5 / 4 * (2:ℚ) ^ (e - 23)) :
+    |rne32 s - c| ≤ (2:ℚ) ^ (e - 23) := by
+  set U := (2:ℚ) ^ (e - 23) with hU
+  have hUpos : 0 < U := by positivity
+  have hpe : (0:ℚ) < (2:ℚ) ^ e := by positivity
+  obtain ⟨sc1, sc2⟩ := abs_lt.1 hsc
+  have e0 : (2:ℚ) ^ e = 8388608 * U := by
+    have := zpow_shift (e - 23) 23
+    have e' : e - 23 + ((23:ℕ):ℤ) = e := by push_cast; ring
+    rw [e'] at this; rw [this, hU]; norm_num
+  have em1 : (2:ℚ) ^ (e - 1) = 4194304 * U := by
+    have := zpow_succ2 (e - 1)
+    have e' : e - 1 + 1 = e := by ring
+    rw [e', e0] at this; linarith
+  have hs1 : (2:ℚ) ^ (e - 1) ≤ s := by rw [em1]; rw [e0] at hce; linarith
+  have hs0 : (0:ℚ) ≤ s := le_trans (by positivity) hs1
+  have h1 := rne32_half_ulp s (e - 1) (by omega) (by
+    rw [abs_of_nonneg hs0]; have : e - 1 + 1 = e := by ring
+    rw [this]; exact hs.le)
+  have eh : (2:ℚ) ^ (e - 1 - 24) = U / 4 := by
+    have a := zpow_succ2 (e - 1 - 24)
+    have b := zpow_succ2 (e - 24)
+    have e1 : e - 1 - 24 + 1 = e - 24 := by ring
+    have e2 : e - 24 + 1 = e - 23 := by ring
+    rw [e1] at a; rw [e2] at b; rw [hU, b, a]; ring
+  rw [eh] at h1
+  have hr : (2:ℚ) ^ (e - 1) ≤ rne32 s := by
+    have := rne32_mono _ _ hs1
+    rwa [rne32_two_zpow (e - 1) (by omega)] at this
+  obtain ⟨j, hj⟩ := rep_grid (rep_rne32 s) (e - 1) (by
+    rw [abs_of_nonneg (le_trans (by positivity) hr)]; exact hr)
+  have eg : (2:ℚ) ^ (e - 1 - 23) = U / 2 := by
+    have a := zpow_succ2 (e - 1 - 23)
+    have e1 : e - 1 - 23 + 1 = e - 23 := by ring
+    rw [e1] at a; rw [hU, a]; ring
+  rw [eg] at hj
+  obtain ⟨m, hm⟩ := rep_grid hc e (by rw [abs_of_nonneg (by linarith)]; exact hce)
+  rw [← hU] at hm
+  have hd : rne32 s - c = ((j - 2 * m : ℤ) : ℚ) * (U / 2) := by rw [hj, hm]; push_cast; ring
+  have hlt : |rne32 s - c| < ((2:ℕ) + 1) * (U / 2) := by
+    have := abs_add_le (rne32 s - s) (s - c)
+    rw [sub_add_sub_cancel] at this
+    push_cast; linarith
+  rw [hd] at hlt ⊢
+  have := grid_abs_le (U / 2) (by positivity) (j - 2 * m) 2 hlt
+  push_cast at this ⊢
+  linarith
+
+/-- the lowest normal binade `e = −126`: below it the spacing stays `2^-149`, and `3/2` ulp may be allowed -/
+theorem rne32_near_below_min (c s : ℚ) (hc : Rep c)
+    (hs : s < (2:ℚ) ^ (-126:ℤ)) (hs0 : 0 ≤ s) (hsc : |s - c| < 3 / 2 * (2:ℚ) ^ (-149:ℤ)) :
+    |rne32 s - c| ≤ (2:ℚ) ^ (-149:ℤ) := by
+  set U := (2:ℚ) ^ (-149:ℤ) with hU
+  have hUpos : 0 < U := by positivity
+  have h1 := rne32_half_ulp s (-126) (by norm_num) (by
+    rw [abs_of_nonneg hs0]
+    have : (2:ℚ) ^ (-126:ℤ) ≤ (2:ℚ) ^ ((-126:ℤ) + 1) := (zpow_le_iff _ _).2 (by norm_num)
+    linarith)
+  have eh : (2:ℚ) ^ ((-126:ℤ) - 24) = U / 2 := by
+    have a := zpow_succ2 (-150)
+    have e1 : (-150:ℤ) + 1 = -149 := by norm_num
+    rw [e1] at a
+    have e2 : (-126:ℤ) - 24 = -150 := by norm_num
+    rw [e2, hU, a]; ring
+  rw [eh] at h1
+  obtain ⟨j, hj⟩ := rep_multiple (rep_rne32 s)
+  obtain ⟨m, hm⟩ := rep_multiple hc
+  rw [← hU] at hj hm
+  have hd : rne32 s - c = ((j - m : ℤ) : ℚ) * U := by rw [hj, hm]; push_cast; ring
+  clear_value U
+  have hlt : |rne32 s - c| < (1 + 1) * U := by
+    have := abs_add_le (rne32 s - s) (s - c)
+    rw [sub_add_sub_cancel] at this
+    linarith
+  rw [hd] at hlt ⊢
+  have := grid_abs_le U hUpos (j - m) 1 (by exact_mod_cast hlt)
+  simpa using this
+
 /-! ### non-vacuity / sharpness -/
 
 /-- `add_err` is attained up to the factor `2^24/(2^24+1)`: `2^24 + 1` rounds to `2^24`, error `1 = u·2^24` -/
